@@ -4,6 +4,8 @@ import os, sys, json, time, re
 HERE = os.path.dirname(os.path.abspath(__file__))
 VERIF = os.path.dirname(HERE)
 KNOWN = os.path.join(VERIF, "KNOWN_FINDINGS.txt")
+# self-test / seed matrix runs redirect their output so that the registered evidence is never overwritten
+OUT = os.environ.get("VERIF_OUT") or VERIF
 
 
 class Broken(Exception):
@@ -96,7 +98,7 @@ class Check(object):
         wall = time.time() - self.t0
         # reports
         lines = []
-        rdir = os.path.join(VERIF, "reports", self.pid)
+        rdir = os.path.join(OUT, "reports", self.pid)
         if viol:
             os.makedirs(rdir, exist_ok=True)
         seen_known = set()
@@ -160,8 +162,8 @@ class Check(object):
             "wall_s": round(wall, 3),
             "violations": len(viol),
         }
-        os.makedirs(os.path.join(VERIF, "evidence"), exist_ok=True)
-        with open(os.path.join(VERIF, "evidence", self.pid + ".json"), "w") as fh:
+        os.makedirs(os.path.join(OUT, "evidence"), exist_ok=True)
+        with open(os.path.join(OUT, "evidence", self.pid + ".json"), "w") as fh:
             json.dump(ev, fh, indent=1)
         for l in lines:
             print(l)
